@@ -4,6 +4,7 @@ mod gen;
 mod c01;
 mod c02;
 mod c03;
+mod c04;
 mod faults;
 mod c07;
 mod c08;
@@ -59,6 +60,7 @@ fn main() {
             "C01" => c01::replay(&v),
             "C02" => c02::replay(&v),
             "C03" => c03::replay(&v),
+            "C04" => c04::replay(&v),
             "C07" => c07::replay(&v),
             "C08" => c08::replay(&v),
             "C09" => c09::replay(&v),
@@ -76,6 +78,7 @@ fn main() {
             "C01" => c01::run(tier),
             "C02" => c02::run(tier),
             "C03" => c03::run(tier),
+            "C04" => c04::run(tier),
             "C07" => c07::run(tier),
             "C08" => c08::run(tier),
             "C09" => c09::run(tier),
